@@ -95,6 +95,7 @@ func (c *Ctx) limbArgs(p *load.Program, in *absint.Interp, d *absint.LimbDom, f 
 	et := c.elementType(p)
 	var args []absint.Val
 	letter := 0
+	nInt := 0
 	positional := c.limbPositional
 	for i, prm := range f.Params {
 		t := prm.Type()
@@ -124,6 +125,13 @@ func (c *Ctx) limbArgs(p *load.Program, in *absint.Interp, d *absint.LimbDom, f 
 			}
 			obj := in.NewObject(prm.Name(), types.NewArray(types.Typ[types.Uint8], int64(n)), arr)
 			args = append(args, absint.SliceV{Obj: obj, Len: n, Cap: n})
+		case types.Identical(t, types.Typ[types.Int]) && c.limbInts != nil:
+			k := int64(0)
+			if nInt < len(c.limbInts) {
+				k = c.limbInts[nInt]
+			}
+			nInt++
+			args = append(args, absint.MkInt(k))
 		case types.Identical(t, types.Typ[types.Int]):
 			args = append(args, d.Sym("cond", big.NewInt(0), big.NewInt(1)))
 		case types.Identical(t, types.Typ[types.Uint32]):
